@@ -170,4 +170,60 @@ theorem invoke_spec {cfg : Cfg} {tx : Tx} {m : Meter} {s s' : St} {is : List Inc
         simp only [Coins.amountOf_sub] at hu'
         rw [htot d]; omega
 
+/-! ### the base-fee deduction never answers "insufficient fee" -/
+
+theorem useGranted_err_ne_fee {a : Allow} {fee : Coins} {e : Err} (h : useGrantedFees a fee = .error e) : e ≠ .fee := by
+  unfold useGrantedFees at h
+  split at h
+  · cases h; decide
+  · cases h
+  · dsimp only at h
+    split_ifs at h <;> cases h <;> decide
+
+theorem checkDeduct_err_ne_fee {cfg : Cfg} {tx : Tx} {s : St} {e : Err}
+    (h : checkDeductBaseFee cfg tx s = .error e) : e ≠ .fee := by
+  unfold checkDeductBaseFee at h
+  dsimp only at h
+  split at h
+  · cases h; decide
+  · split at h
+    · rename_i e' hg
+      cases h
+      unfold getFeePayerUsingFeeGrant at hg
+      split at hg
+      · cases hg
+      · split at hg
+        · rename_i e'' hu; cases hg; exact useGranted_err_ne_fee hu
+        · cases hg
+    · split_ifs at h
+      · cases h; decide
+      · split at h
+        · cases h; decide
+        · cases h
+
+/-! ### mempool mode vs block mode of the ante chain -/
+
+/-- The mempool-mode ante chain is the block-mode chain plus the fee sufficiency test: whatever
+passes the former passes the latter ON THE SAME STATE (unless the ante handler runs out of gas in
+the block — observed). -/
+theorem ante_check_ok_imp_deliver_ok {cfg : Cfg} {tx : Tx} {s : St} {p : St × Meter}
+    (hC : anteHandle cfg tx true s = .ok p) (hg : tx.oogAnte = false) :
+    ∃ q, anteHandle cfg tx false s = .ok q := by
+  unfold anteHandle at hC ⊢
+  simp only [hg, Bool.false_eq_true, if_false, false_and] at hC ⊢
+  split_ifs at hC ⊢ <;>
+  (cases hcd : checkDeductBaseFee cfg tx s with
+   | error e' => simp [hcd] at hC
+   | ok q => first | exact ⟨_, rfl⟩ | simp [hcd] at hC)
+
+theorem not_rejected_of_ante_ok {cfg : Cfg} {tx : Tx} {s : St} {q : St × Meter}
+    (hq : anteHandle cfg tx false s = .ok q) : ∀ e, (deliverTx cfg tx s).outcome ≠ .rejected e := by
+  intro e hrej
+  unfold deliverTx at hrej
+  simp only [hq] at hrej
+  split_ifs at hrej
+  split at hrej
+  · simp at hrej
+  · split at hrej <;> simp at hrej
+
 end PvProofs.TxfeeL
